@@ -31,14 +31,14 @@ def _setop(rng, ver):
         elif r < 0.85:
             x = ('i', rng.choice([-1, m + 1, m + 2, -m, 1 << 130, (1 << 32), (1 << 32) - 1]))
         else:
-            x = ('j',)
+            x = ('j', rng.choice(['none', 'float', 'floatfrac', 'str', 'list']))
     elif kind == 'p':
         if r < 0.6:
             x = ('i', rng.randrange(0, w + 1))
         elif r < 0.85:
             x = ('i', rng.choice([-1, w + 1, w + 2, 129, 33, 1 << 40, -w]))
         else:
-            x = ('j',)
+            x = ('j', rng.choice(['none', 'float', 'floatfrac', 'str', 'list', 'frac']))
     else:
         p = rng.randrange(0, w + 1)
         mask = m ^ ((1 << (w - p)) - 1)
@@ -58,7 +58,16 @@ def _setop(rng, ver):
 
 
 def _tok(op):
-    return ':'.join(str(t) for t in op)
+    # the model only needs to know "not an int": the junk kind stays on the implementation side
+    return ':'.join(str(t) for t in (op[:2] if op[1] == 'j' else op))
+
+
+def _junk(kind, cur):
+    """a non-int argument; the in-range float / Fraction / str spell the CURRENT value, which an
+    over-lenient setter would silently accept"""
+    import fractions
+    return {'none': None, 'float': float(cur), 'floatfrac': cur + 0.5, 'str': str(cur), 'list': [cur],
+            'frac': fractions.Fraction(cur)}[kind]
 
 
 def generate(rng, tier):
@@ -104,8 +113,11 @@ def impl(c):
         _, ver, v, p = a
         n = _net(ver, v, p)
         b = n.broadcast
-        return ' '.join([str(int(n.hostmask)), str(int(n.netmask)), str(int(n.network)), str(n.first), str(n.last),
-                         str(n.size), optint(None if b is None else int(b)), str(int(n.ip)), _show(n.cidr)])
+        out = ' '.join([str(int(n.hostmask)), str(int(n.netmask)), str(int(n.network)), str(n.first), str(n.last),
+                        str(n.size), optint(None if b is None else int(b)), str(int(n.ip)), _show(n.cidr)])
+        # every derived address object must be of the network's own family
+        vers = set(x.version for x in (n.hostmask, n.netmask, n.network, n.ip, n.cidr) + ((b,) if b is not None else ()))
+        return out if vers == {ver} else out + ' !derived-versions=%s' % sorted(vers)
     if a[0] == 'mask':
         _, ver, v = a
         ip = IPAddress(v, ver)
@@ -124,8 +136,10 @@ def impl(c):
                 arg = x[1]
             elif x[0] == 'a':
                 arg = IPAddress(x[2], x[1])
+            elif kind == 'm':
+                arg = [1, 2]
             else:
-                arg = None if kind != 'm' else [1, 2]
+                arg = _junk(x[1] if len(x) > 1 else 'none', min(n.prefixlen, 20) if kind == 'p' else min(n.value, 1 << 20))
             try:
                 if kind == 'v':
                     n.value = arg
